@@ -39,7 +39,9 @@ func (tdsChan *Channel) Login(ctx context.Context, config *LoginConfig) error {
 		return errors.New("passed config is nil")
 	}
 
+	tdsChan.txLock.Lock()
 	tdsChan.CurrentHeaderType = TDS_BUF_LOGIN
+	tdsChan.txLock.Unlock()
 
 	var withoutEncryption bool
 	switch config.Encrypt {
